@@ -91,7 +91,7 @@ Theorem C05_fixed_statement_is_one_item_partial :
     Forall fgood ls -> tail_ok tail ->
     get_source_item (fx ign (line :: map fphys ls ++ tail) [] lc fifo)
     = (Some (RLine (strip (field ++ ftext ls))
-                   (match strip l5 with [] => None | _ => Some (nat_of_digits (strip l5)) end) nm
+                   (match label_chars l5 with [] => None | _ => Some (nat_of_digits (label_chars l5)) end) nm
                    (S lc) (fend ls (S lc) (S lc))),
        after ign tail (S lc + List.length ls) (fifo ++ fcoms ign ls (S lc))).
 Proof. exact fixed_item. Qed.
